@@ -74,3 +74,14 @@ func VerifTopK(want massutil.Amount, items []*txmgr.Credit) ([]*txmgr.Credit, in
 	}
 	return s.Items(), s.K()
 }
+
+// VerifImportBatch, when > 0, shortens a rescan batch to that many heights so
+// that multi-batch imports are reachable on short chains.
+var VerifImportBatch uint64
+
+func verifImportStop(synced, stop uint64) uint64 {
+	if VerifImportBatch > 0 && stop > synced+VerifImportBatch {
+		return synced + VerifImportBatch
+	}
+	return stop
+}
